@@ -48,6 +48,7 @@ func VerifC10Terminate() {
 	base := vf.Goroutines()
 
 	// session state
+	var gate chan struct{}
 	state := vf.Choice("state", 4)
 	switch state {
 	case 1: // mid-stream: a request has been forwarded
@@ -63,11 +64,14 @@ func VerifC10Terminate() {
 			fr.WriteHeaders(http2.HeadersFrameParam{StreamID: 1, BlockFragment: headerBlock(), EndHeaders: true})
 			fr.WriteData(1, false, []byte("blocked"))
 		}))
-	case 3: // the output channel towards the server is full and its writer cannot make progress
-		server.failWrites = false
+	case 3: // the output channel towards the server is full: its writer is held in a write the
+		// server is slow to take, and the reader is held pushing the rest of a burst of queued frames
+		gate = make(chan struct{})
+		server.gate = gate
 		client.send(frameBytes(func(fr *http2.Framer) {
+			fr.WriteHeaders(http2.HeadersFrameParam{StreamID: 1, BlockFragment: headerBlock(), EndHeaders: true})
 			for i := 0; i < 20; i++ {
-				fr.WritePing(false, [8]byte{byte(i)})
+				fr.WriteData(1, false, []byte{byte(i)})
 			}
 		}))
 	}
@@ -97,6 +101,11 @@ func VerifC10Terminate() {
 		close(closing)
 	}
 	vf.Quiesce()
+	if gate != nil {
+		// the slow server takes (or, for event 2, refuses) the pending write at last
+		close(gate)
+		vf.Quiesce()
+	}
 
 	vf.Assert(returned, "relay-call-returns")
 	vf.Assert(server.closed, "upstream-connection-closed-on-return")
